@@ -188,7 +188,7 @@ func checkC18(c c18Case) error {
 			filler(i).invoke(cfg0, ft0)
 		}
 		if r0 := (Call{API: "yaml", Doc: c18Previous, Form: "string"}).invoke(cfg0, ft0); len(r0.Errors) != 0 {
-			return fmt.Errorf("harness: storing the previous document: %q", clipAll(r0.Errors))
+			return fmt.Errorf("harness: storing the previous document: %q", vhClipAll(r0.Errors))
 		}
 		filler(50).invoke(cfg0, ft0)
 		ft0.finish()
@@ -232,10 +232,10 @@ func checkC18(c c18Case) error {
 	after := snapDir(root)
 	if c.Kind == "invalid" {
 		if out != oFailed {
-			return fmt.Errorf("input %q is rejected by the YAML library but the call ended as %q", clip(string(c.Doc)), out)
+			return fmt.Errorf("input %q is rejected by the YAML library but the call ended as %q", vhClip(string(c.Doc)), out)
 		}
 		if !strings.Contains(r.Errors[0], "invalid yaml") {
-			return fmt.Errorf("failure does not say `invalid yaml`: %q", clip(r.Errors[0]))
+			return fmt.Errorf("failure does not say `invalid yaml`: %q", vhClip(r.Errors[0]))
 		}
 		if d := diffDirs(before, after, false); d != "" {
 			return fmt.Errorf("invalid YAML wrote: %s", d)
@@ -245,7 +245,7 @@ func checkC18(c c18Case) error {
 		if o2, _ := outcomeOf(rr); o2 != oAdded {
 			return fmt.Errorf("call after the invalid one: outcome %q", o2)
 		}
-		es, _ := refParse(readFile(file))
+		es, _ := refParse(vhReadFile(file))
 		if findEntry(es, entryID(c.Test, k+1)) < 0 || findEntry(es, id) >= 0 {
 			return fmt.Errorf("the failing call must consume its ordinal: expected entry %q and no %q, file has %s", entryID(c.Test, k+1), id, describeEntries(es))
 		}
@@ -260,7 +260,7 @@ func checkC18(c c18Case) error {
 		newProcess(Mode{})
 		ft2 := newFakeT(c.Test)
 		if r0 := (Call{API: "snap", Vals: []Val{strVal(string(c.Doc))}}).invoke(spec2.build(root2), ft2); len(r0.Errors) != 0 {
-			return fmt.Errorf("harness: storing the text through MatchSnapshot: %q", clipAll(r0.Errors))
+			return fmt.Errorf("harness: storing the text through MatchSnapshot: %q", vhClipAll(r0.Errors))
 		}
 		ft2.finish()
 		for _, mode := range []Mode{{}, {CI: true}, {Update: "true"}} {
@@ -271,7 +271,7 @@ func checkC18(c c18Case) error {
 			r2 := Call{API: "yaml", Doc: c.Doc, Form: c.Form}.invoke(spec2.build(root2), ft2)
 			ft2.finish()
 			if o2, _ := outcomeOf(r2); o2 != oFailed || len(r2.Errors) == 0 || !strings.Contains(r2.Errors[0], "invalid yaml") {
-				return fmt.Errorf("input %q is not valid YAML; with the identical text already stored under the id (mode %+v) the call ended as %q errors=%q", clip(string(c.Doc)), mode, o2, clipAll(r2.Errors))
+				return fmt.Errorf("input %q is not valid YAML; with the identical text already stored under the id (mode %+v) the call ended as %q errors=%q", vhClip(string(c.Doc)), mode, o2, vhClipAll(r2.Errors))
 			}
 			if d := diffDirs(pre2, snapDir(root2), true); d != "" {
 				return fmt.Errorf("invalid YAML (identical text already stored, mode %+v) wrote: %s", mode, d)
@@ -280,16 +280,16 @@ func checkC18(c c18Case) error {
 		return nil
 	}
 	if out != wantOut {
-		return fmt.Errorf("recording (%s): outcome %q, want %q; errors=%q", c.Kind, out, wantOut, clipAll(r.Errors))
+		return fmt.Errorf("recording (%s): outcome %q, want %q; errors=%q", c.Kind, out, wantOut, vhClipAll(r.Errors))
 	}
 	// one more call of the test after the document (its entry follows the document in the file)
 	if ra := filler(50).invoke(cfg, ft); len(ra.Errors) != 0 {
-		return fmt.Errorf("call after the YAML call fails while recording: %q", clipAll(ra.Errors))
+		return fmt.Errorf("call after the YAML call fails while recording: %q", vhClipAll(ra.Errors))
 	}
 	ft.finish()
-	es, perr := refParse(readFile(file))
+	es, perr := refParse(vhReadFile(file))
 	if perr != nil {
-		return fmt.Errorf("file not well formed after recording %q: %v; content %q", clip(string(c.Doc)), perr, clip(readFile(file)))
+		return fmt.Errorf("file not well formed after recording %q: %v; content %q", vhClip(string(c.Doc)), perr, vhClip(vhReadFile(file)))
 	}
 	idx := findEntry(es, id)
 	if idx < 0 || len(es) != c.Before+2+nHuge {
@@ -303,11 +303,11 @@ func checkC18(c c18Case) error {
 	switch c.Kind {
 	case "text":
 		if want := refEscape(string(c.Doc)); body != want {
-			return fmt.Errorf("stored body is not the document verbatim:\n input  %q\n stored %q", clip(want), clip(body))
+			return fmt.Errorf("stored body is not the document verbatim:\n input  %q\n stored %q", vhClip(want), vhClip(body))
 		}
 	case "newline_with_matcher":
 		if strings.HasSuffix(string(c.Doc), "\n") != strings.HasSuffix(body, "\n") {
-			return fmt.Errorf("presence of the final newline not preserved through a matcher: input %q stored %q", clip(string(c.Doc)), clip(body))
+			return fmt.Errorf("presence of the final newline not preserved through a matcher: input %q stored %q", vhClip(string(c.Doc)), vhClip(body))
 		}
 	case "value", "struct":
 		other, err := stored2()
@@ -315,7 +315,7 @@ func checkC18(c c18Case) error {
 			return err
 		}
 		if other != body {
-			return fmt.Errorf("the same Go value was marshalled to different text in two processes:\n%q\n%q", clip(body), clip(other))
+			return fmt.Errorf("the same Go value was marshalled to different text in two processes:\n%q\n%q", vhClip(body), vhClip(other))
 		}
 	}
 	if c.Huge {
@@ -355,11 +355,11 @@ func checkC18(c c18Case) error {
 		r = Call{API: "yaml", Doc: c.Doc, Form: c.Form, Matchers: c.Matchers}.invoke(cfg, ft)
 	}
 	if ra := filler(50).invoke(cfg, ft); len(ra.Errors) != 0 || len(ra.Logs) != 0 {
-		return fmt.Errorf("replaying the call after the YAML call: errors=%q logs=%q", clipAll(ra.Errors), clipAll(ra.Logs))
+		return fmt.Errorf("replaying the call after the YAML call: errors=%q logs=%q", vhClipAll(ra.Errors), vhClipAll(ra.Logs))
 	}
 	ft.finish()
 	if len(r.Errors) != 0 || len(r.Logs) != 0 {
-		return fmt.Errorf("replaying the same %s input fails: errors=%q logs=%q", c.Kind, clipAll(r.Errors), clipAll(r.Logs))
+		return fmt.Errorf("replaying the same %s input fails: errors=%q logs=%q", c.Kind, vhClipAll(r.Errors), vhClipAll(r.Logs))
 	}
 	if d := diffDirs(pre, snapDir(root), true); d != "" {
 		return fmt.Errorf("replay wrote: %s", d)
@@ -371,7 +371,7 @@ func checkC18(c c18Case) error {
 	if _, pl := pkgLevelDir(cfg); pl {
 		return nil
 	}
-	data := readFile(file)
+	data := vhReadFile(file)
 	os.WriteFile(file, []byte(data+"\n[TestZZObsoleteNeighbour - 1]\nobsolete\n---\n"), 0o644)
 	newProcess(Mode{Update: "clean"})
 	cfg = spec.build(root)
@@ -383,15 +383,15 @@ func checkC18(c c18Case) error {
 	filler(50).invoke(cfg, ft)
 	ft.finish()
 	if len(r.Errors) != 0 {
-		return fmt.Errorf("replay before Clean: %q", clipAll(r.Errors))
+		return fmt.Errorf("replay before Clean: %q", vhClipAll(r.Errors))
 	}
 	runClean("", 1)
-	es2, perr2 := refParse(readFile(file))
+	es2, perr2 := refParse(vhReadFile(file))
 	if perr2 != nil {
 		return fmt.Errorf("file not well formed after Clean pruned a neighbour: %v", perr2)
 	}
 	if j := findEntry(es2, id); j < 0 || string(es2[j].Body) != body {
-		return fmt.Errorf("after Clean pruned an obsolete neighbour the document is not stored verbatim any more:\n before %q\n after  %s", clip(body), describeEntries(es2))
+		return fmt.Errorf("after Clean pruned an obsolete neighbour the document is not stored verbatim any more:\n before %q\n after  %s", vhClip(body), describeEntries(es2))
 	}
 	if findEntry(es2, "TestZZObsoleteNeighbour - 1") >= 0 {
 		return fmt.Errorf("harness: Clean did not prune the obsolete neighbour")
@@ -409,9 +409,9 @@ func storeYAMLValue(v any, test string) (string, error) {
 	spec.build(root).MatchYAML(ft, v)
 	ft.finish()
 	if e, _ := ft.drain(); len(e) != 0 {
-		return "", fmt.Errorf("storing the value again: %q", clipAll(e))
+		return "", fmt.Errorf("storing the value again: %q", vhClipAll(e))
 	}
-	es, err := refParse(readFile(filepath.Join(root, spec.multiPath())))
+	es, err := refParse(vhReadFile(filepath.Join(root, spec.multiPath())))
 	if err != nil || len(es) != 1 {
 		return "", fmt.Errorf("storing the value again: %d entries (%v)", len(es), err)
 	}
@@ -459,10 +459,10 @@ func checkC18TypedValues(test string, pick int) error {
 	}
 	got, err := storeYAMLValue(v, test)
 	if err != nil {
-		return fmt.Errorf("Go value %T(%v), which the YAML library marshals to %q: %v", v, v, clip(string(want)), err)
+		return fmt.Errorf("Go value %T(%v), which the YAML library marshals to %q: %v", v, v, vhClip(string(want)), err)
 	}
 	if strings.TrimSuffix(refUnescape(got), "\n") != strings.TrimSuffix(string(want), "\n") {
-		return fmt.Errorf("Go value %T(%v) is stored as %q, the YAML library (Indent 2, IndentSequence) marshals it to %q", v, v, clip(got), clip(string(want)))
+		return fmt.Errorf("Go value %T(%v) is stored as %q, the YAML library (Indent 2, IndentSequence) marshals it to %q", v, v, vhClip(got), vhClip(string(want)))
 	}
 	return nil
 }
@@ -503,7 +503,7 @@ func classifyC18(c c18Case) ([]string, bool) {
 	if c.Kind == "value" || c.Kind == "struct" || c.Kind == "invalid" || c.Kind == "newline_with_matcher" {
 		nt = true
 	}
-	return uniq(cls), nt
+	return vhUniq(cls), nt
 }
 
 func TestC18_YAMLVerbatim(t *testing.T) {
